@@ -158,7 +158,7 @@ func runC18(r *rt.Run) {
 	if r.Thorough() {
 		scopes = []scope{{4, -1, 6}, {3, -1, 7}}
 	}
-	r.Rule = "every vertex sequence of length 0..depth over the lattice (nothing filtered: repeated, collinear, self-crossing all occur), each as closed ring, closed ring with repeated closing vertex, rotated ring and open series; non-trivial = cyclic sequence of >= 3 vertices with non-zero area"
+	r.Rule = "every vertex sequence of length 0..depth over the lattice (nothing filtered: repeated, collinear, self-crossing all occur), each as closed ring, closed ring with repeated closing vertex, rotated ring and open series; plus the near-parallel family: rings whose first two edges are M*(P,Q)+e1 and M*(P,Q)+e2 for 12 primitive directions (P,Q), 30 lengths M up to 2^26 lattice units (1/128 steps above 2^18, magnitude <= 2^20), e1,e2 over [-2,2]^2, closed as a triangle or through 6 fourth vertices, every rotation, both directions, with and without repeated closing vertex (flags compared where every float product and partial sum of the library is exact, < 2^53 units^2); non-trivial = cyclic sequence of >= 3 vertices with non-zero area"
 	r.Assume = []string{"coordinates integers/half-integers of small magnitude (exact float arithmetic)", "reference: verif/mc/exact Convex/Area2/Segs (literal reading of the statement)"}
 	var sc []string
 	for _, s := range scopes {
@@ -175,6 +175,7 @@ func runC18(r *rt.Run) {
 		})
 	}
 	r.Bounds["scopes"] = sc
+	c18NearParallel(r)
 	r.Sample(map[string]any{"ring": [][2]float64{{1, 1}, {2, 0}, {2, 2}, {0, 2}, {0, 0}, {1, 1}}, "note": "reflex vertex at the seam of a closed ring"})
 	r.Sample(map[string]any{"ring": [][2]float64{{0, 0}, {1, 0}, {1, 0}, {0, 1}}, "note": "repeated vertex, unclosed"})
 }
@@ -182,6 +183,33 @@ func runC18(r *rt.Run) {
 func evalC18(c *rt.Case) (bool, string, string, error) {
 	if c.Kind != "series" {
 		return false, "", "", fmt.Errorf("not mine")
+	}
+	if _, scaled := c.X["scale"]; scaled && (c.Op == "convex" || c.Op == "clockwise") {
+		// near-parallel family: long edges on dyadic coordinates
+		t := xfOf(c.X)
+		var seq []exact.P
+		for _, p := range c.A.P {
+			x, y := (p[0]-t.Tx)/t.Scale, (p[1]-t.Ty)/t.Scale
+			if x != float64(int64(x)) || y != float64(int64(y)) || x > 1<<28 || x < -(1<<28) || y > 1<<28 || y < -(1<<28) {
+				return false, "", "", fmt.Errorf("coordinates outside the exact domain")
+			}
+			seq = append(seq, exact.P{X: int64(x), Y: int64(y)})
+		}
+		ring := geometry.NewPoly(g2(c.A.P), nil, idxNone).Exterior
+		cyc := exact.Cyclic(seq)
+		tOK, sOK := floatExactTurns(cyc)
+		if c.Op == "convex" {
+			if !tOK {
+				return false, "", "", fmt.Errorf("float arithmetic not exact on this input")
+			}
+			want := exact.Convex(seq)
+			return ring.Convex() != want, fmt.Sprint(want), fmt.Sprint(ring.Convex()), nil
+		}
+		if !sOK {
+			return false, "", "", fmt.Errorf("float arithmetic not exact on this input")
+		}
+		want := exact.Area2(cyc) < 0
+		return ring.Clockwise() != want, fmt.Sprint(want), fmt.Sprint(ring.Clockwise()), nil
 	}
 	es, ok := exactOf(&rt.G{K: "line", P: c.A.P}, ident)
 	if !ok {
